@@ -277,7 +277,12 @@ def dict_branch(ctx):
     ok = len(avs) == 1 and is_name(avs[0].args[0], target)
     fl = [a for a in ancestors(avs[0]) if isinstance(a, ast.For)] if avs else []
     ok = ok and bool(fl) and matches(fl[0].iter, 'set($d) - set($r)')
-    ctx.ob(ok, u, 'only keys absent from the result receive their default: for ... in %s' % (norm(fl[0].iter) if fl else None))
+    if ok:
+        st_ = stmt_of(avs[0])
+        ok = isinstance(st_, ast.Assign) and st_.value is avs[0] and len(fl[0].body) == 1 and fl[0].body[0] is st_ \
+            and matches(st_, '$r[$k] = arg_val(%s, $d[$k], %s)' % (target, scope))
+    ctx.ob(ok, u, 'exactly the keys absent from the result receive their default, always evaluated as an argument: for ... in %s'
+           % (norm(fl[0].iter) if fl else None))
     ctx.floor(14)
 
 
